@@ -58,11 +58,14 @@ Next ==
        [] e.e = "Crosslap" ->
             LET s1 == hst[e.h1]  s2 == hst[e.h2]  F1 == HF(e.h1)  F2 == HF(e.h2) IN
             /\ Step(ChkCrosslap(s1, F1, s2, F2, e), e,
-                    [hst EXCEPT ![e.h1] = [@ EXCEPT !.pos = IF e.ret = 0 /\ s1.sk THEN e.t11 ELSE -1, !.lap = 0],
-                                ![e.h2] = [@ EXCEPT !.lap = IF e.ret = 0 /\ s1.pos >= 0 /\ s2.pos >= 0 /\ s1.open /\ s2.open
-                                                            THEN Min({Shr(F1.links[LinkOf(F1,s1.pos)].bs0, s1.hs), Shr(F2.links[LinkOf(F2,s2.pos)].bs0, s2.hs)}) \div 2
+                    [hst EXCEPT ![e.h1] = [@ EXCEPT !.pos = IF s1.pos >= 0 /\ s1.sk /\ e.t11 >= 0 /\ (e.ret = 0 \/ e.t11 = s1.pos) THEN e.t11 ELSE -1, !.lap = 0],
+                                \* the lap region of the second handle: min of the two half short blocks (at most its own when the first position is unknown)
+                                ![e.h2] = [@ EXCEPT !.lap = IF e.ret = 0 /\ s2.pos >= 0 /\ s2.open
+                                                            THEN (IF s1.pos >= 0 /\ s1.open
+                                                                  THEN Min({Shr(F1.links[LinkOf(F1,s1.pos)].bs0, s1.hs), Shr(F2.links[LinkOf(F2,s2.pos)].bs0, s2.hs)})
+                                                                  ELSE Shr(F2.links[LinkOf(F2,s2.pos)].bs0, s2.hs)) \div 2
                                                             ELSE 0,
-                                                    !.pos = IF e.ret = 0 THEN @ ELSE -1]])
+                                                    !.pos = IF e.ret = 0 \/ e.tell = s2.pos THEN @ ELSE -1]])
             /\ UNCHANGED <<fidx, scn>>
        [] e.e = "Tell" ->
             /\ Step(ChkTell(hst[e.h], HF(e.h), e), e, hst) /\ UNCHANGED <<fidx, scn>>
@@ -75,7 +78,7 @@ Next ==
             /\ hst' = [hst EXCEPT ![e.h] = [@ EXCEPT !.faulted = (e.kind # 3), !.fk = e.kind]] /\ l' = l + 1 /\ UNCHANGED <<fidx, scn, nviol>>
        [] e.e = "FaultOff" ->
             \* position is unknown after faults; the next successful seek re-establishes the full promise
-            /\ hst' = [hst EXCEPT ![e.h] = [@ EXCEPT !.faulted = FALSE, !.pos = IF @.faulted /\ e.fired > 0 THEN -1 ELSE @.pos, !.lap = 0]]
+            /\ hst' = [hst EXCEPT ![e.h] = [@ EXCEPT !.faulted = FALSE, !.pos = IF hst[e.h].faulted /\ e.fired > 0 THEN -1 ELSE @, !.lap = IF hst[e.h].faulted /\ e.fired > 0 THEN 0 ELSE @]]
             /\ l' = l + 1 /\ UNCHANGED <<fidx, scn, nviol>>
        [] e.e = "End" ->
             /\ Step((IF e.openleft = 0 /\ e.live # 0 THEN {"ClearReleasesEverything"} ELSE {}), e, hst) /\ UNCHANGED <<fidx, scn>>
@@ -90,7 +93,7 @@ Spec == Init /\ [][Next]_vars
 
 \* design-level sanity of the abstract state, evaluated at every step of every trace
 TypeOK == /\ \A h \in Handles : hst[h].lap >= 0 /\ hst[h].pos >= -1 /\ hst[h].hs \in {0,1} /\ hst[h].closes >= 0
-PosInFile == \A h \in Handles : hst[h].open /\ hst[h].pos >= 0 /\ ~HF(h).damaged /\ hst[h].sk => hst[h].pos <= HF(h).total
+PosInFile == \A h \in Handles : Strict(hst[h], HF(h)) /\ ~Loose(hst[h], HF(h)) /\ hst[h].pos >= 0 /\ hst[h].sk /\ nviol = 0 => hst[h].pos <= HF(h).total + hst[h].hs
 
 Accepted == TLCGet("stats").diameter = Len(Tr) + 1
 =============================================================================
